@@ -37,11 +37,11 @@ let classify (ty : string) (ops : sx list) : (string * string) list =
   let res = ref [] in
   let add f d = if not (List.mem_assoc f !res) then res := (f, d) :: !res in
   (match ty with
-   | "mapmv" | "mapor" | "mapmm" ->
+   | "mapmv" | "mapor" | "mapmm" | "mapmo" ->
        let rmk = List.concat_map (rm_keys 0) ops in
        let ups = List.concat_map (updates 0) ops in
        (* T1: MVReg leaves whose Put clock is not the singleton of the update's dot *)
-       if ty <> "mapor" then
+       if ty <> "mapor" && ty <> "mapmo" then
          List.iter (fun o ->
            if is_up o then
              match inner_put o with
